@@ -298,11 +298,15 @@ Fixpoint first_index (l : loc) (ls : list loc) (i : nat) : nat :=
   match ls with [] => i | x :: r => if Nat.eqb x l then i else first_index l r (S i) end.
 Definition canon (ls : list loc) : list nat := map (fun l => first_index l ls 0) ls.
 
-Record snapshot := { sn_vals : list aobs; sn_share : list nat; sn_keys : list (method * nat) }.
+Record snapshot := { sn_vals : list aobs; sn_share : list nat; sn_keys : list (method * nat);
+                     sn_int : list (nat * bool) (* obj.integrate(1) equals the clean value? *) }.
 Definition snap_match (s : state) (sn : snapshot) : bool :=
   list_eqb match_obs (map (hget s) (tracked s)) (sn_vals sn)
   && list_eqb Nat.eqb (canon (tracked s)) (sn_share sn)
-  && list_eqb (fun e (x : method * nat) => method_eqb (e_m e) (fst x) && Nat.eqb (e_d e) (snd x)) (cache s) (sn_keys sn).
+  && list_eqb (fun e (x : method * nat) => method_eqb (e_m e) (fst x) && Nat.eqb (e_d e) (snd x)) (cache s) (sn_keys sn)
+  && forallb (fun x : nat * bool => match nth_error (objs s) (fst x) with
+                                    | Some ob => Bool.eqb (forallb block_clean (hget s (o_w ob))) (snd x)
+                                    | None => false end) (sn_int sn).
 
 (* a trace: per API call, the model operations it stands for and the observation made after it *)
 Fixpoint check_trace (cf : cfg) (s : state) (t : list (list op * snapshot)) : bool :=
